@@ -65,7 +65,33 @@ def native_replay(ctx, grp, full_name, hexinp):
     return out
 
 
+def mem_available_gb():
+    try:
+        for line in open("/proc/meminfo"):
+            if line.startswith("MemAvailable:"):
+                return int(line.split()[1]) / (1 << 20)
+    except OSError:
+        pass
+    return 1e9
+
+
+_start_lock = threading.Lock()
+
+
+def wait_for_memory(need_gb, max_wait_s=1800):
+    """Do not start another solver process while the machine is short of memory (there is no swap: the kernel would kill
+    running solvers and their results would be lost).  Starts are serialised so that several waiting workers do not all
+    start at once; after max_wait_s the harness starts anyway (its own RLIMIT_AS still applies)."""
+    t0 = time.time()
+    with _start_lock:
+        while mem_available_gb() < need_gb and time.time() - t0 < max_wait_s:
+            time.sleep(5)
+        # give the process just started a moment to allocate before the next worker looks at MemAvailable
+        time.sleep(0.5)
+
+
 def run_harness(ctx, grp, h):
+    wait_for_memory(float(h.get("need", "6")))
     modname = h["_mod"]
     # harness modules of verif_kani are addressed by their plain module name; inner modules by their full path
     full = f"{modname}::{h['name']}::check" if "::" in modname else f"verif_kani::{modname}::{h['name']}::check"
